@@ -38,7 +38,8 @@ pub fn write_frame_with_perm(out: &mut Vec<u8>, fh: &FrameHeaderSpec, ih: &Image
     let perm: Vec<usize> = perm.unwrap_or_else(|| (0..n).collect());
     w.bit(permuted);
     if permuted {
-        let ops = permutation_ops(&perm, 0, if src.chance(32) { src.range(0, 3) as usize } else { 0 });
+        let mut ops = permutation_ops(&perm, 0, if src.chance(32) { src.range(0, 3) as usize } else { 0 });
+        crate::hostile::perturb(&mut ops);
         let code = EntropyCode::generate(src, 8, &[&ops], toc_code);
         code.write_header(&mut w, src);
         code.write_stream(&mut w, &ops, true);
@@ -172,7 +173,8 @@ pub fn splines_tokens(s: &SplinesSpec) -> Vec<(u32, u32)> {
 /// Returns the notes of the generated code.
 pub fn write_splines(w: &mut BitWriter, s: &SplinesSpec, lz77: Option<u32>, src: &mut Src) -> Vec<String> {
     let tokens = splines_tokens(s);
-    let (ops, copies) = crate::modular::encode::make_ops(&tokens, lz77, 0, src, false);
+    let (mut ops, copies) = crate::modular::encode::make_ops(&tokens, lz77, 0, src, false);
+    crate::hostile::perturb(&mut ops);
     let code = EntropyCode::generate(src, 6, &[&ops], &CodeOpts { lz77_min_length: lz77, ..Default::default() });
     code.write_header(w, src);
     code.write_stream(w, &ops, true);
